@@ -3,12 +3,20 @@
 Model coq/C36/Model.v (gil_ensure / thread_canary_register / thread_canary_free_zombies /
 thread_canary_dealloc / cffi_thread_shutdown): per-thread TLS slot and gilstate slot, thread
 states with counter and dict, canaries, the zombie list; events: callbacks (overlapping), the
-steps of the sweep, thread exits at any point, finalization.  Theorems (all event orders, any
-number of threads): no Py_FatalError condition, thread state deleted at most once and never
+steps of the sweep, thread exits at any point, finalization.  Theorems (coq/C36/Props.v; all event
+orders, any number of threads): no Py_FatalError condition, thread state deleted at most once and never
 while its thread is alive, same thread state across callbacks, counter >= 2 inside a callback,
 zombie list duplicate-free and made of allocated canaries of exited threads, no dangling canary
-pointers, exited threads' states are destroyed or queued.
-Tie: correspondence, partial.  A compiled helper spawns pthreads that invoke a ffi.callback in
+pointers, exited threads' states are destroyed or queued; a registration is always defined
+(C36_registration_total) and frees, under any interleaving, every canary queued when it started
+(C36_sweep_frees_initial_zombies).
+Tie (1) regenerated, coq/C36/Gen.v from src/c/misc_thread_common.h on every run (regex/brace
+translator below, fail closed): the ring code of make_zombie / detach as `pstmt` programs; the locked
+regions of cffi_thread_shutdown / thread_canary_dealloc / thread_canary_free_zombies as `xstmt`
+programs (coq/C36/Ptr.v) with per-region specifications (C36/Proofs3.v); six order/counter facts of
+gil_ensure / gil_release / thread_canary_register that Model.step_fn CONSULTS (a false fact changes
+the model and breaks the invariant proof).  The rest of the model is by hand.
+Tie (2) correspondence: a compiled helper spawns pthreads that invoke a ffi.callback in
 model-chosen counts / overlaps / exit orders, interleaved with gc.collect() and callbacks from a
 Python thread; observed: the threading.local token each callback sees (numbered in creation
 order), which threads' tokens have been destroyed after each event, survival of the process
@@ -367,7 +375,7 @@ def gen_text(f, origin):
 def regen(ctx):
     try:
         f, status, origin = extract_pointer_code(), None, "regenerated from src/c/misc_thread_common.h"
-    except (U, OSError) as e:
+    except (U, OSError, ValueError, IndexError) as e:      # anything unexpected in the source shape: fail closed
         f, status, origin = dict(SNAPSHOT), "fallback: %s" % e, "SNAPSHOT (extraction from the current source failed)"
     st = py2coq.write_if_changed(os.path.join(vlib.COQ, "C36", "Gen.v"), gen_text(f, origin))
     ctx.translator("C36/Gen.v", status or st)
@@ -599,14 +607,24 @@ def run(ctx):
                        "Non-trivial = at least 2 threads, an exit and 6 events; distinct by (threads, events).")
     ctx.assumptions += [
         "CPython internals are hypotheses: PyGILState_Ensure/Release, PyThreadState_Clear/Delete are modelled only "
-        "through gilstate_counter, the thread-state dict and deletion; the 3.12 bound_gilstate workaround is not modelled",
+        "through gilstate_counter, the thread-state dict and deletion; the 3.12 bound_gilstate workaround "
+        "(misc_thread_common.h:172-180) is not modelled (the translator only accepts it as an optional line "
+        "between PyThreadState_Clear and PyThreadState_Delete)",
         "allocation failures (ignore_error paths of thread_canary_register) are not modelled",
         "the real interleaving of cffi_thread_shutdown with the sweep's locked regions is covered by the theorems only; "
         "the harness sequences whole callbacks / exits",
         "threading.local data of a foreign thread is released exactly when its thread state is cleared (observed)",
-        "the pointer code of thread_canary_make_zombie / _thread_canary_detach_with_lock is regenerated into C36/Gen.v "
-        "(regex over misc_thread_common.h, fail closed) and proved to implement append/removal on the sequence the "
-        "model uses; the remaining functions are a hand model",
+        "regenerated into C36/Gen.v (regex/brace translator over misc_thread_common.h, fail closed): the ring code of "
+        "thread_canary_make_zombie / _thread_canary_detach_with_lock (proved to implement append/removal), the locked "
+        "regions of cffi_thread_shutdown / thread_canary_dealloc / thread_canary_free_zombies (proved to perform "
+        "do_exit's append + tls clear / dealloc's removal + back-pointer clear / the sweep's pop-first on a `ring` "
+        "heap), and six facts of gil_ensure / gil_release / thread_canary_register consulted by Model.step_fn",
+        "NOT proved: the composition of the per-region heap theorems with the abstract model (a simulation "
+        "C36_heap_refines: reach s -> exists h, ring (rp h) (map S (zombies s)) ...); the unlocked fast-path read "
+        "of cffi_zombie_head.zombie_next (misc_thread_common.h:150) concurrent with make_zombie is not modelled; "
+        "the statements around the locked regions (free(tls), PyObject_Del, Clear-then-Delete) are shape-checked "
+        "by the translator (fallback if changed), the rest of gil_ensure's slow path is a hand model",
+        "get_cffi_tls() returning NULL (ignore_error path: no canary, thread state not persistent) is not modelled",
         "EvDictDrop (a canary deallocated while its thread lives) is realised in the harness by removing the "
         "'cffi.thread.canary' entry from the thread-state dict through ctypes.pythonapi inside a callback"]
     evaluate(ctx, generate(ctx))
@@ -614,19 +632,34 @@ def run(ctx):
 
 LEVEL = "proof"
 MANIFEST = dict(
-    technique="Coq proof (inductive invariant over all event orders of the thread-state / canary / zombie-list system) "
+    technique="Coq proof (inductive invariant over all event orders of the thread-state / canary / zombie-list system; "
+              "trace invariant for sweep progress; pointer-level specifications of regenerated code) + model facts and "
+              "pointer programs regenerated from misc_thread_common.h on every run (fail closed) "
               "+ differential correspondence with real foreign pthreads",
     text="Partial. Proof: in the model of gil_ensure / thread_canary_register / free_zombies / dealloc / "
          "cffi_thread_shutdown, for every order of callbacks (overlapping), sweep steps, thread exits and finalization over "
          "any number of threads: none of the code's fatal-error conditions fires, a thread state is deleted at most once "
          "and never while its thread is alive, a live foreign thread keeps the same thread state across callbacks, the "
          "zombie list is duplicate-free and holds only allocated canaries of exited threads, no dangling canary pointers, "
-         "states of exited threads are destroyed or queued (the queue is emptied by the next registration of any thread; "
-         "states of threads that exit after the last registration stay queued until finalization: residual leak, stated), "
-         "also when a canary is deallocated under cffi's feet while its thread lives (EvDictDrop). The doubly linked "
-         "zombie ring is proved at pointer level for the regenerated code of make_zombie / detach. "
-         "Tie: real pthreads driven through model-chosen event sequences; "
+         "states of exited threads are destroyed or queued; a first callback is always defined, ends without fatal "
+         "error and — when not interrupted — leaves the queue empty (C36_registration_total); under ANY interleaving "
+         "every canary queued when a registration starts is freed when its sweep loop has ended "
+         "(C36_sweep_frees_initial_zombies; canaries queued by exits after the loop saw the list empty, and states of "
+         "threads that exit after the last registration, stay queued until the next registration / finalization: "
+         "residual leak, stated and exemplified), also when a canary is deallocated under cffi's feet while its thread "
+         "lives (EvDictDrop). Persistence is proved per event (C36_persistent) and over whole executions "
+         "(C36_persistent_trace); a completed registration has destroyed the state of every thread that had exited "
+         "before it (C36_registration_destroys). "
+         "Pointer level: the regenerated ring code of make_zombie / detach implements append / removal on a doubly "
+         "linked ring (C36_make_zombie_appends, C36_detach_removes, C36_ring_*), and the regenerated locked regions of "
+         "cffi_thread_shutdown / thread_canary_dealloc / thread_canary_free_zombies perform the model's list "
+         "operations on such a ring (C36_shutdown_links/_nothing/_twice_fatal, C36_dealloc_unlinks, C36_sweep_pops); "
+         "their composition with the abstract model (C36_heap_refines) is NOT proved. "
+         "Tie: Gen.v regenerated on every run (ring code, locked regions, six gil_ensure / gil_release / "
+         "thread_canary_register facts consulted by Model.step_fn); real pthreads driven through model-chosen event sequences; "
          "threading.local persistence, distinctness, destruction points and process survival compared with the model.",
-    note="Trusted: Coq kernel; hand model tied by differential runs; CPython thread-state internals, pthread TLS "
+    note="Trusted: Coq kernel; the regex/brace translator of c36.py; hand model (apart from the regenerated facts and "
+         "programs) tied by differential runs of sequential macro events (an exit is never placed inside another "
+         "thread's registration by the harness: that interleaving is covered by the theorems only); CPython thread-state internals, pthread TLS "
          "destructor semantics and glibc are hypotheses. Theorems closed under the global context.",
     design_ref="DESIGN.md §4 C36")
